@@ -121,8 +121,15 @@ def opC02 (op : String) (a : List String) : Option String :=
           match bad1 with
           | some m => pure m
           | none =>
-            if ln = lo ∨ ln = some en then pure s!"ok {lcStr ln}"
-            else pure "FAIL invented"
+            if ¬ (ln = lo ∨ ln = some en) then pure "FAIL invented"
+            else if edel ∧ e.val.length > 0 then pure s!"ok {lcStr ln}"
+            else
+              let want : Option LC := match lo with
+                | none => if edel ∧ e.ts < c.cutoff then none else some en
+                | some o =>
+                  if e.ts = 0 ∧ o.val = e.val ∧ ¬ (edel ∧ ¬ o.del) then some o
+                  else if lcBeats en o then some en else some o
+              if ln = want then pure s!"ok {lcStr ln}" else pure "FAIL wrong-winner"
   | _, _ => none
 where
   cfgOf (fv defTs txn cutoff pad : String) : Option Cfg := do
